@@ -5,7 +5,7 @@ from mc import core, det, vnet, fe, sse
 PROPERTY = 'C09'
 ENGINE = 'E3 real client Service + real server + real websockets on the virtual network; exhaustive enumeration of client-reload / server-restart placements over the workflow'
 LEVEL = 'model_checking'
-DIRECTED_ADDITIONS = 'two interleaved services (incl. a 14-posting keyword and concurrent searches), patterned keys, 27 cleanup-timer variants, early client object, single-keyword databases, the CLI itself (JSON files, names, name collisions, fresh process per command and one long-lived process), a result above 1 MiB, composed/decomposed Unicode keywords, awkward sid characters, loopback-TCP replays'      # members added during the seeded-change campaign (DESIGN 7); counted under their own vacuity counters
+DIRECTED_ADDITIONS = 'the workflow spread over two real interpreters with different hash seeds (server restart / CLI as they really happen), two interleaved services (incl. a 14-posting keyword and concurrent searches), patterned keys, 27 cleanup-timer variants, early client object, single-keyword databases, the CLI itself (JSON files, names, name collisions, fresh process per command and one long-lived process), a result above 1 MiB, composed/decomposed Unicode keywords, awkward sid characters, loopback-TCP replays'      # members added during the seeded-change campaign (DESIGN 7); counted under their own vacuity counters
 
 STEPS = ['create', 'genkey', 'encrypt', 'upload-config', 'upload-index', 'search1', 'search2']
 CHUNK = 16
@@ -126,6 +126,7 @@ def units(tier, seed):
         us.append(('large/%s' % name, {'large': name}))
     for name in sse.SCHEMES:
         us.append(('timing/%s' % name, {'timing': name}))
+        us.append(('processes/%s' % name, {'processes': name, 'splits': [1, 2, 3, 4, 5, 6]}))
     # conformance of the transport model: workflows replayed over real loopback TCP with the real client (mc/loopback.py)
     if tier == 'quick':
         us.append(('tcp/0', {'tcp': [['CJJ14.PiBas', 0, [1, 0, 1, 0, 1, 1]]]}))
@@ -136,7 +137,7 @@ def units(tier, seed):
     return sorted(us, key=lambda u: not u[0].startswith('tcp'))
 
 
-def run_case(r, seed, name, dbi, bits, restart, keypattern=None, timing=None, early_object_at=None, cfg_over=None):
+def run_case(r, seed, name, dbi, bits, restart, keypattern=None, timing=None, early_object_at=None, cfg_over=None, steps=None, sid=None):
     from toolkit.database_utils import convert_database_keyword_to_bytes
     from toolkit.bytes_utils import BytesConverter
     case = {'scheme': name, 'db': dbi, 'reload_before_step': bits, 'server_restart_before_step': restart}
@@ -150,7 +151,12 @@ def run_case(r, seed, name, dbi, bits, restart, keypattern=None, timing=None, ea
         case['early_client_object_loaded_before_step'] = early_object_at
         r.count('early-object-variants')
     core.note_case(case)
-    det.seed_case(seed, PROPERTY, name, dbi)
+    if steps:
+        # one phase (steps[0] <= i < steps[1]) of a workflow that is spread over several interpreters (run_processes)
+        case['phase_steps'] = list(steps)
+        det.seed_case(seed, PROPERTY, name, dbi, 'phase', steps[0])
+    else:
+        det.seed_case(seed, PROPERTY, name, dbi)
     jdb = json_dbs()[dbi] if dbi != 'big' else json_db_big()
     cfg = wf_cfg(name)
     if cfg_over:
@@ -167,11 +173,15 @@ def run_case(r, seed, name, dbi, bits, restart, keypattern=None, timing=None, ea
         r.count('reloads', sum(bits))
     w = fe.World(eager=True)
     cl = fe.ClientDriver(w)
+    if sid:
+        cl.sid = sid
     step = 'boot'
     try:
         w.start_server()
         early = None
         for i, step in enumerate(STEPS):
+            if steps and not (steps[0] <= i < steps[1]):
+                continue
             if timing and i > 0 and timing.get(str(i - 1)):
                 # virtual time passes between two commands: fire one / all of the server's pending cleanup timers
                 if timing[str(i - 1)] == 1:
@@ -267,9 +277,47 @@ def run_case(r, seed, name, dbi, bits, restart, keypattern=None, timing=None, ea
         r.v(PROPERTY, name, kind, '%s/%s:%s' % (step, core.exc_site(e), type(e).__name__), dict(case, step=step), 'workflow step succeeds', core.exc_text(e))
         r.outcome(kind)
     finally:
+        if steps:
+            w.sids, w.client_sids = [], []         # the on-disk state is handed to the next phase
         w.close()
     if r['evaluations'] % 29 == 1:
         r.sample(case)
+    return cl.sid
+
+
+def run_processes(r, seed, name, dbi, split):
+    """the workflow spread over two real interpreters with different hash seeds, sharing only the on-disk state: steps before
+    `split` in the first process, the rest - server started anew, client re-created from disk - in the second.  split = 5 is 'the
+    server restarted after the upload' as a restart really happens; the other splits are what the CLI does (a process per command)."""
+    import subprocess, tempfile, shutil, sys
+    case = {'scheme': name, 'db': dbi, 'process_split_before_step': split, 'hash_seeds': [101, 202]}
+    core.note_case(case)
+    home = tempfile.mkdtemp(prefix='c09-processes-', dir=det.scratch_home())
+    r['evaluations'] += 1
+    r['states'] += 1
+    r['nontrivial'] += 1
+    r.count('workflows-over-two-processes')
+    sid = None
+    try:
+        for (a, b), hs in (((0, split), 101), ((split, len(STEPS)), 202)):
+            arg = json.dumps({'home': home, 'seed': seed, 'scheme': name, 'db': dbi, 'steps': [a, b], 'sid': sid})
+            env = dict(os.environ, PYTHONHASHSEED=str(hs), HOME=home)
+            p = subprocess.run([sys.executable, '-B', '-m', 'mc.phase09', arg], capture_output=True, text=True, env=env, timeout=600, cwd=core.VERIF)
+            line = [l for l in p.stdout.splitlines() if l.startswith('PHASE-RESULT ')]
+            if not line:
+                r.v(PROPERTY, name, 'step-raises', 'process-phase-%d-%d/no-result' % (a, b), case, 'the phase finishes', (p.stdout + p.stderr)[-600:])
+                return
+            out = json.loads(line[-1][len('PHASE-RESULT '):])
+            r['transitions'] += out.get('transitions', 0)
+            sid = out['sid']
+            for v in out['violations']:
+                r.v(PROPERTY, v['component'], v['kind'], v['site'] + '/second-process' * (a > 0), dict(case, inner=v['case']), v['expected'], v['observed'])
+                r.outcome(v['kind'])
+            if out['violations']:
+                return
+        r.outcome('processes-ok')
+    finally:
+        shutil.rmtree(home, ignore_errors=True)
 
 
 def run_two_services(r, seed, name, order):
@@ -512,6 +560,11 @@ def run_unit(p, tier, seed):
                 run_case(r, seed, p['timing'], 1, [keep] * 6, None, early_object_at=at)
         det.restore()
         return r
+    if 'processes' in p:
+        for split in p['splits']:
+            run_processes(r, seed, p['processes'], split % 2, split)
+        det.restore()
+        return r
     if 'keypatterns' in p:
         for pat in det.KEY_PATTERNS:
             run_case(r, seed, p['keypatterns'], 0, [1, 1, 1, 1, 1, 1], None, keypattern=pat)
@@ -539,6 +592,9 @@ def replay(case, seed):
     r = core.Result()
     if 'tcp' in case:
         return run_unit({'tcp': case['tcp']}, 'quick', seed)['violations']
+    if 'process_split_before_step' in case:
+        run_processes(r, seed, case['scheme'], case['db'], case['process_split_before_step'])
+        return r['violations']
     if case.get('two_services'):
         run_two_services(r, seed, case['scheme'], case['order'])
         return r['violations']
